@@ -8,8 +8,8 @@ import time
 from facts import VERIF, Unusable
 
 KNOWN = os.path.join(VERIF, "known_findings.json")
-EVIDENCE_DIR = os.path.join(VERIF, "evidence")
-REPLAY_DIR = os.path.join(VERIF, "evidence", "replay")
+EVIDENCE_DIR = os.environ.get("VERIF_EVIDENCE_DIR") or os.path.join(VERIF, "evidence")
+REPLAY_DIR = os.path.join(EVIDENCE_DIR, "replay")
 
 
 class Ob:
